@@ -7,9 +7,11 @@ is a mismatch) over type-directed programs, grammar-directed (ill-typed) program
 from __future__ import annotations
 
 import os
-from typing import Any, Dict, Optional, Tuple
+from typing import List, Any, Dict, Optional, Tuple
 
 from hypothesis import strategies as st
+
+from celpy.evaluation import CELEvalError
 
 from vf import cel, common, corpus, gen, ir, localize, outcome, progs, tree2ir
 
@@ -87,6 +89,63 @@ def check_src(run: common.Run, src: str, binds: Dict[str, Any], case: dict, repo
         report(f"IC-src[{flags}]-{mode_of(i, c)}", case, f"{src[:150]}: I={outcome.short(i)[:120]} C={outcome.short(c)[:120]}")
 
 
+def check_sequence(run: common.Run, node: Tuple, envs: List[Dict[str, Tuple[str, Any]]], report) -> None:
+    """ONE program per runner, evaluated with a sequence of activations (some omit names that earlier ones bound, some bind them to other values): at every
+    step the two runners agree. A step whose activation, evaluated by fresh programs, already disagrees belongs to the single-evaluation campaigns and is skipped here."""
+    src = ir.render(node)
+    progs_ = {}
+    for r in ("I", "C"):
+        try:
+            e = cel.env(r)
+            progs_[r] = e.program(e.compile(src))
+        except Exception:
+            run.event("sequence-skipped-program-does-not-build")
+            return
+    run.event("sequence")
+    for k, env in enumerate(envs):
+        binds = gen.bind_env(env)
+        outs = {}
+        for r in ("I", "C"):
+            try:
+                outs[r] = outcome.value_outcome(progs_[r].evaluate(dict(binds)))
+            except CELEvalError:
+                outs[r] = ("error",)
+            except Exception as ex:
+                outs[r] = ("crash", type(ex).__name__, "evaluate")
+        run.tick()
+        if k:
+            run.nt(("seq", src, k, repr(sorted(env.items()))))
+            run.event("nontrivial")
+        if outs["I"] != outs["C"]:
+            fi, fc = both(src, binds)
+            if fi != fc:
+                run.event("sequence-step-disagrees-also-when-fresh")  # the single-evaluation campaigns own (and classify) this
+                continue
+            which = "C" if outs["C"] != fc else "I"
+            report(f"IC-sequence-{which}-step-depends-on-earlier-evaluations-of-the-program-{mode_of(outs['I'], outs['C'])}",
+                   {"sequence": True, "src": src, "node": node, "envs": [{n: list(v) for n, v in e_.items()} for e_ in envs], "step": k},
+                   f"{src}: step {k} with {sorted(env)}: I={outcome.short(outs['I'])[:80]} C={outcome.short(outs['C'])[:80]} (fresh programs agree: {outcome.short(fi)[:60]})")
+            return
+
+
+@st.composite
+def sequence_case(draw):
+    """A typed program that reads >= 1 variable and 2-4 activations for it: the full one, one with a variable left out, one with other values."""
+    node, T, env = draw(gen.typed_program(3).filter(lambda p: len(p[2]) >= 1))
+    envs = [env]
+    names = sorted(env)
+    for _ in range(draw(st.integers(1, 3))):
+        k = draw(st.integers(0, 2))
+        if k == 0:
+            gone = draw(st.sampled_from(names))
+            envs.append({n: v for n, v in env.items() if n != gone})
+        elif k == 1:
+            envs.append({n: (kind, draw(gen.payload_of(kind))) for n, (kind, _) in env.items()})
+        else:
+            envs.append(env)
+    return node, envs
+
+
 def check_names(run: common.Run, bindings: Dict[str, Any], package: Optional[str], ref: str, annotate: bool, report) -> None:
     """A (possibly dotted) reference evaluated against a set of (possibly dotted, overlapping) bindings under a package: I and C agree."""
     from checks import c12
@@ -121,7 +180,9 @@ def _node(x):
 def replay(run: common.Run, case: dict, key: str = ""):
     problems = []
     rep = lambda k, c, d: problems.append((k, d))
-    if case.get("names"):
+    if case.get("sequence"):
+        check_sequence(run, _node(case["node"]), [{n: (v[0], v[1]) for n, v in e_.items()} for e_ in case["envs"]], rep)
+    elif case.get("names"):
         check_names(run, case["bindings"], case["package"], case["ref"], case["annotate"], rep)
     elif "package" in case:
         package_pass(run, rep)
@@ -181,6 +242,9 @@ def campaign(run: common.Run) -> None:
     def body_mut(s):
         check_src(run, s, {}, {"src": s}, run.hyp_fail)
 
+    def body_seq(c):
+        check_sequence(run, c[0], c[1], run.hyp_fail)
+
     def body_names(c):
         check_names(run, c[0], c[1], c[2], c[3], run.hyp_fail)
 
@@ -190,6 +254,8 @@ def campaign(run: common.Run) -> None:
 
     # dotted names: overlapping bindings (a.b and a.b.c), packages, leading-dot references - resolved the same way by both runners
     common.drive(run, body_names, {"c": c12.random_bindings()}, 500 if q else 8000, seed_salt=6)
+    # one program object per runner, several activations in a row
+    common.drive(run, body_seq, {"c": sequence_case()}, 400 if q else 8000, seed_salt=7)
     common.drive(run, body_typed, {"p": gen.nested_macro_program()}, 400 if q else 8000, seed_salt=4)
     common.drive(run, body_typed, {"p": gen.document_program()}, 600 if q else 10000, seed_salt=5)
     common.drive(run, body_mut, {"s": progs.mutated_corpus()}, 500 if q else 10000, seed_salt=3)
